@@ -328,6 +328,9 @@ def iv_div(a, b):
 def iv_rem(a, b):
     """truncating remainder (sign follows dividend); b must not contain 0"""
     assert not (b[0] <= 0 <= b[1])
+    if a[0] == a[1] and b[0] == b[1] and a[0] not in (INF, -INF):
+        v = a[0] - b[0] * _tdiv(a[0], b[0])
+        return (v, v)
     m = max(abs(b[0]), abs(b[1])) - 1
     if a[0] >= 0:
         if a[1] < min(abs(b[0]), abs(b[1])):
